@@ -239,3 +239,77 @@ func RUnlocked(l *sync.RWMutex) bool {
 }
 
 func DeepEqual(a, b any) bool { return reflect.DeepEqual(a, b) }
+
+// CanonEqual is DeepEqual up to the documented canonical form: a nil and an empty slice or map are
+// equal, and time.Time values are compared as instants.
+func CanonEqual(a, b any) bool { return canonEq(reflect.ValueOf(a), reflect.ValueOf(b), 0) }
+
+func canonEq(a, b reflect.Value, depth int) bool {
+	if depth > 32 {
+		return false
+	}
+	if !a.IsValid() || !b.IsValid() {
+		return a.IsValid() == b.IsValid()
+	}
+	if a.Type() != b.Type() {
+		return false
+	}
+	if t, ok := a.Interface().(time.Time); ok && a.CanInterface() {
+		return t.Equal(b.Interface().(time.Time))
+	}
+	switch a.Kind() {
+	case reflect.Slice:
+		if a.Len() != b.Len() {
+			return false
+		}
+		for i := 0; i < a.Len(); i++ {
+			if !canonEq(a.Index(i), b.Index(i), depth+1) {
+				return false
+			}
+		}
+		return true
+	case reflect.Array:
+		for i := 0; i < a.Len(); i++ {
+			if !canonEq(a.Index(i), b.Index(i), depth+1) {
+				return false
+			}
+		}
+		return true
+	case reflect.Map:
+		if a.Len() != b.Len() {
+			return false
+		}
+		for _, k := range a.MapKeys() {
+			bv := b.MapIndex(k)
+			if !bv.IsValid() || !canonEq(a.MapIndex(k), bv, depth+1) {
+				return false
+			}
+		}
+		return true
+	case reflect.Ptr, reflect.Interface:
+		if a.IsNil() || b.IsNil() {
+			return a.IsNil() == b.IsNil()
+		}
+		return canonEq(a.Elem(), b.Elem(), depth+1)
+	case reflect.Struct:
+		for i := 0; i < a.NumField(); i++ {
+			if !canonEq(a.Field(i), b.Field(i), depth+1) {
+				return false
+			}
+		}
+		return true
+	case reflect.Func:
+		return a.IsNil() && b.IsNil()
+	case reflect.Bool:
+		return a.Bool() == b.Bool()
+	case reflect.Int, reflect.Int8, reflect.Int16, reflect.Int32, reflect.Int64:
+		return a.Int() == b.Int()
+	case reflect.Uint, reflect.Uint8, reflect.Uint16, reflect.Uint32, reflect.Uint64, reflect.Uintptr:
+		return a.Uint() == b.Uint()
+	case reflect.Float32, reflect.Float64:
+		return a.Float() == b.Float()
+	case reflect.String:
+		return a.String() == b.String()
+	}
+	return false
+}
